@@ -1076,3 +1076,79 @@ M('c10-twin-flush-helper', 'C10', 'silent',
 
     def _sync(self):
         self._flush_pipeline()''', 1))
+
+# ---------------------------------------------------------------- C18
+PX = 'slimta/util/proxyproto.py'
+M('c18-recv-into-no-count', 'C18', 'fire:V1',
+  (PX, '''            read_n = sock.recv_into(where, try_read)''',
+   '''            read_n = sock.recv_into(where)''', 1))
+M('c18-line-buffer-too-big', 'C18', 'fire:V1',
+  (PX, '''        buf = bytearray(107)''', '''        buf = bytearray(1024)''', 1))
+M('c18-initial-uses-recv', 'C18', 'fire:V1',
+  (PX, '''            where = memoryview(buf)[len(read):]  # type: ignore
+            read_n = sock.recv_into(where, 8-len(read))
+            assert read_n, 'Received EOF during proxy protocol header'
+            read_view = memoryview(buf)[0:len(read)+read_n]  # type: ignore
+            read = read_view.tobytes()
+        return read
+
+    @classmethod
+    def mixin(cls, edge):
+        """Dynamically mix-in the :class:`ProxyProtocol` class''',
+   '''            read += sock.recv(4096)
+        return read
+
+    @classmethod
+    def mixin(cls, edge):
+        """Dynamically mix-in the :class:`ProxyProtocol` class''', 1))
+M('c18-v2-fixed-header-32', 'C18', 'fire:V1',
+  (PX, '''            data = cls.__read_pp_data(sock, 16, initial)''',
+   '''            data = cls.__read_pp_data(sock, 32, initial)''', 1))
+M('c18-nul-address-escapes', 'C18', 'fire:V2',
+  (PX, '''        except (ValueError, socket.error):
+            # ValueError covers UnicodeDecodeError and embedded null bytes.''',
+   '''        except (UnicodeDecodeError, socket.error):''', 1))
+M('c18-port-valueerror-escapes', 'C18', 'fire:V2',
+  (PX, '''        try:
+            port_num = int(port_string)
+        except ValueError:
+            msg = 'Invalid proxy protocol {0} port format'.format(which)
+            raise AssertionError(msg)''', '''        port_num = int(port_string)''', 1))
+M('c18-struct-error-escapes', 'C18', 'fire:V2',
+  (PX, '''        except struct.error:
+            raise AssertionError('Invalid proxy protocol data')''',
+   '''        except ZeroDivisionError:
+            raise AssertionError('Invalid proxy protocol data')''', 1))
+M('c18-invalid-header-drops-connection', 'C18', 'fire:V3',
+  (PX, '''        except AssertionError as exc:
+            log.proxyproto_invalid(sock, exc)
+            src_addr = invalid_pp_source_address
+        else:
+            log.proxyproto_success(sock, src_addr)
+        super_obj = super(ProxyProtocolV1, self)''', '''        except AssertionError as exc:
+            log.proxyproto_invalid(sock, exc)
+            return
+        else:
+            log.proxyproto_success(sock, src_addr)
+        super_obj = super(ProxyProtocolV1, self)''', 1))
+M('c18-local-connection-handled', 'C18', 'fire:V3',
+  (PX, '''        except LocalConnection:
+            log.proxyproto_local(sock)
+            return
+        except AssertionError as exc:
+            log.proxyproto_invalid(sock, exc)
+            src_addr = invalid_pp_source_address
+        else:
+            log.proxyproto_success(sock, src_addr)
+        super_obj = super(ProxyProtocolV2, self)''', '''        except LocalConnection:
+            log.proxyproto_local(sock)
+            src_addr = unknown_pp_source_address
+        except AssertionError as exc:
+            log.proxyproto_invalid(sock, exc)
+            src_addr = invalid_pp_source_address
+        else:
+            log.proxyproto_success(sock, src_addr)
+        super_obj = super(ProxyProtocolV2, self)''', 1))
+M('c18-signature-prefix-mismatch', 'C18', 'fire:V3',
+  (PX, '''            elif initial == b'\\r\\n\\r\\n\\x00\\r\\nQ':''',
+   '''            elif initial == b'\\r\\n\\r\\n\\x00\\r\\nq':''', 1))
